@@ -16,7 +16,7 @@ What the environment of a method becomes:
 Statements outside numeric state that are accepted *by exact shape* and dropped (anything else is Refused):
 
   mdl.NotificationCenter.notify(self, '<literal>')       dependants notification, no numeric effect
-  if self.mode == _libsc3.main.NRT_MODE: return
+  if self.mode == _libsc3.main.NRT_MODE: [_libsc3.main._clock_scheduler.retime(self);] return
   else:
       with self._sched_cond: self._sched_cond.notify()   wakes the RT scheduler thread; must be last
   self._beats = 0.0 / self.permanent = False             (constructor only) not part of the model
@@ -49,6 +49,16 @@ NOT_ON_CLOCK_SRC = '_libsc3.main.current_tt._clock is not self'
 AS_QUANT_SRC = 'quant = Quant.as_quant(quant)'
 NRT_RETURN_SRC = '''
 if self.mode == _libsc3.main.NRT_MODE:
+    return
+else:
+    with self._sched_cond:
+        self._sched_cond.notify()
+'''
+# since the sc3 fix "pending non-real-time tasks of a TempoClock follow its tempo changes" the NRT branch
+# first re-times the clock's pending tasks in the NRT scheduler (no effect on the clock's own numeric state)
+NRT_RETIME_RETURN_SRC = '''
+if self.mode == _libsc3.main.NRT_MODE:
+    _libsc3.main._clock_scheduler.retime(self)
     return
 else:
     with self._sched_cond:
@@ -193,7 +203,7 @@ class TempoTranslator(FuncTranslator):
                     refuse(s, 'notification outside a state-changing method')
                 return self.block(rest, fall)
             # wake the RT scheduler thread (or return at once in NRT): same numeric state either way
-            if isinstance(s, ast.If) and _same(s, NRT_RETURN_SRC):
+            if isinstance(s, ast.If) and (_same(s, NRT_RETURN_SRC) or _same(s, NRT_RETIME_RETURN_SRC)):
                 if self.mode != 'proc' or rest:
                     refuse(s, 'scheduler wake-up pattern not in final position of a state-changing method')
                 return '(Some self)'
